@@ -311,6 +311,9 @@ def hard_errors_after_consumption(g, ir, consumed=False, depth=0, seen=None):
             out += hard_errors_after_consumption(g, p_, cons, depth + 1, seen)
             if not g.nullable(p_):
                 cons = True
+        # parsers applied in statements the builder did not understand: assumed to run after everything the steps consumed
+        for p_ in ir.get("late") or []:
+            out += hard_errors_after_consumption(g, p_, cons, depth + 1, seen)
         return out
     return out
 
